@@ -723,9 +723,10 @@ def run(ctx):
     ctx.level = "other"
     ctx.explanation = (
         "The elimination solver __Solver_1 is interpreted on a block-labelled system (index sets K/U as opaque selectors): the solve receives A[U,U] and "
-        "b[U]-A[U,K]x[K] and its result lands in x[U] (R4.1); Bc_dofs_known_unknown is interpreted in a mask/complement domain (R4.2); duplicate convention, "
-        "orphan diagonal, solver dispatch exhaustiveness / convergence-flag consumption and incremental Dirichlet values are structural rules. NOT decided: "
-        "residual size, agreement between back-ends, accuracy of external solvers."
+        "b[U]-A[U,K]x[K] and its result lands in x[U] (R4.1); Bc_dofs_known_unknown is interpreted in a mask/complement domain (R4.2); the bordered "
+        "Lagrange-multiplier system is interpreted with recording sparse stubs (one row per constrained dof with the summed value, scales, size; R4.7); _Solve_Axb is interpreted for every "
+        "SolverType with backends that report convergence / non-convergence (R4.5) and with a Lagrange condition present (direct factorisation only; R4.12); orphan detection (R4.10), "
+        "Newton-incremental values (R4.6), prescription order (R4.8), LagrangeCondition scale (R4.11). NOT decided: residual size on a real system, accuracy of the external solvers."
     )
     ctx.assume("scipy's csr_matrix((v,(r,c))) sums duplicates; external solvers return the solution of the system they are given when they report convergence")
     elimination_rule(ctx)
